@@ -111,7 +111,7 @@ def d2(ctx, F):
 
 def run(ctx):
     F = ctx.facts("quick")
-    ex, sd, cfg = routers.report(ctx, F, "reqrep", "C02", lambda f: f.kind in ("K1", "K3", "K9") and "buffered_err" not in f.key and "local:si" not in f.key and "slot-overwrite:server" not in f.key)
+    ex, sd, cfg = routers.report(ctx, F, "reqrep", "C02", lambda f: (f.kind in ("K1", "K3", "K9", "K13") and "buffered_err" not in f.key and "local:si" not in f.key and "slot-overwrite:server" not in f.key) or f.kind in ("K4", "K5"))
     ctx.floor("C02.pollai.persistent-states", len(ex.persistent), 40)
     ctx.ok("C02.pollai", "req/rep router explored exhaustively: %d persistent states, %d (block,state) nodes" % (len(ex.persistent), len(ex.it.nodes)), cfg.body.span)
     routing = ex.h.routing
